@@ -338,4 +338,30 @@ inline std::vector<BigW> common_values(int bits, bool is_signed, int k, bool few
     return v;
 }
 
+// integers on which a limb-by-limb accumulation into a p-bit significand can round twice: a tie (or near
+// tie) at the final rounding position, a low bit that an intermediate partial sum can lose
+inline std::vector<BigW> float_hazards(int bits, bool is_signed)
+{
+    std::vector<BigW> v;
+    int maxbit = bits - int(is_signed) - 1;
+    for (int p : {24, 53, 64})
+        for (int t : {p + 1, p + 8, p + 9, p + 16, p + 17, p + 33, p + 41, 2 * p + 3, maxbit}) {
+            if (t > maxbit || t <= p) continue;
+            int tie = t - p;
+            BigW T = BigW::pow2(t), H = BigW::pow2(tie);
+            BigW bases[4] = {T + H + BigW(1), T + H, T + H + H + H, T + H - BigW(1)};
+            for (BigW const& b : bases) {
+                v.push_back(b);
+                for (int s : {t - 1, t - 8, t - 9, t - 17, p, p + 1})
+                    if (s > tie + 1 && s < t) v.push_back(b + BigW::pow2(s));
+            }
+        }
+    if (is_signed) {
+        size_t n = v.size();
+        for (size_t i = 0; i < n; ++i) v.push_back(-v[i]);
+    }
+    sort_unique(v);
+    return v;
+}
+
 }  // namespace c10
